@@ -130,6 +130,7 @@ func (v *list_[V]) GetValues(first int, last int) Sequential[V] {
 // Expandable
 
 func (v *list_[V]) InsertValue(slot uint, value V) {
+	v.checkSlot(slot)
 
 	// Create a new larger array.
 	var size = uint(v.GetSize() + 1)
@@ -154,6 +155,7 @@ func (v *list_[V]) InsertValue(slot uint, value V) {
 }
 
 func (v *list_[V]) InsertValues(slot uint, values Sequential[V]) {
+	v.checkSlot(slot)
 
 	// Create a new larger array.
 	var size = uint(v.GetSize() + values.GetSize())
@@ -395,6 +397,18 @@ func (v *list_[V]) String() string {
 }
 
 // Private
+
+// This private instance method makes sure that the specified slot is one of
+// the slots [0..size] of this list.
+func (v *list_[V]) checkSlot(slot uint) {
+	var size = v.GetSize()
+	if slot > uint(size) {
+		panic(fmt.Sprintf(
+			"The specified slot is outside the allowed range [0..%v]: %v",
+			size,
+			slot))
+	}
+}
 
 // This private instance method normalizes the specified relative index.  The
 // following transformation is performed:
